@@ -83,7 +83,18 @@ TLC_NOISE = re.compile(r"^(TLC2 |Warning: |Running |Parsing |Semantic |Starting|
 
 
 def run_tlc(ctx, module, cfg, env_extra, workers=1, timeout=3600, xss="512m", xmx=None):
-    """Run TLC on spec/<module>.tla; returns (printed JSON values, raw output)."""
+    """Run TLC on spec/<module>.tla; returns (printed JSON values, raw output).  A failure of TLC's own file handling (its
+    state files under -metadir) is retried once; every other failure is a tool error."""
+    try:
+        return _run_tlc(ctx, module, cfg, env_extra, workers, timeout, xss, xmx)
+    except ToolError as e:
+        if "FileNotFoundException" in str(e) or "java.io.IOException" in str(e):
+            log(f"[{ctx.prop}] TLC file-system error on {module}, retrying once")
+            return _run_tlc(ctx, module, cfg, env_extra, workers, timeout, xss, xmx)
+        raise
+
+
+def _run_tlc(ctx, module, cfg, env_extra, workers=1, timeout=3600, xss="512m", xmx=None):
     meta = ctx.path(f"meta-{module}-{ctx.tlc_runs}")
     ctx.tlc_runs += 1
     env = dict(os.environ)
